@@ -727,3 +727,8 @@ func aliasMode(of, cf reflect.Value) string {
 	}
 	return "shared"
 }
+
+// cloneIface deep-clones a value by reflection (independent of Copy()).
+func cloneIface(v interface{}) interface{} {
+	return clone(reflect.ValueOf(v)).Interface()
+}
